@@ -429,6 +429,51 @@ def check_revcomp(c0: int, c1: int, s0: int, s1: int, me0: int, me1: int, l0: in
             and st.with_adapters[1] is None and st.reverse_complemented == rcm.reverse_complemented)
 
 
+def check_revcomp_rounds(c0: int, c1: int, s0: int, s1: int, me0: int, me1: int, r0: int, r1: int, n0: int, second: int) -> bool:
+    """
+    pre: 0 <= c0 <= 4 and 0 <= c1 <= 4 and 1 <= s0 <= 3 and 1 <= s1 <= 3 and 0 <= me0 <= 1 and 0 <= me1 <= 1
+    pre: 0 <= r0 <= 9 and 0 <= r1 <= 9 and 0 <= n0 <= 9 and 0 <= second <= 1
+    post: _
+    """
+    # --revcomp --times 2: two matches are applied on the reverse complement, in round 1 by adapter A, in round 2 by adapter
+    # A again (second == 0) or by adapter B (second == 1).  Every applied match is one match of ITS adapter on the reverse
+    # complement: each adapter's tallies (incl. its reverse-complement counter) move by exactly its own applied matches.
+    seq = R1_TEXT
+    n = len(seq)
+    second = _conc(second, 0, 1)
+    o0 = _after(_conc(c0, 0, n), s0, _conc(me0, 0, 1))
+    o1 = _after(_conc(c1, 0, n), s1, _conc(me1, 0, 1))
+    a, b = _B[0], _B[1]
+    shared = {"cur": "f"}
+    if second == 0:
+        a.program({"f": [None], "r": [o0, o1]}, shared)
+        b.program({"f": [None], "r": [None, None]}, shared)
+    else:
+        a.program({"f": [None], "r": [o0, None]}, shared)
+        b.program({"f": [None], "r": [None, o1]}, shared)
+    cutter = AdapterCutter([a, b], times=2, action="trim", index=False)
+    rcm = ReverseComplementer(cutter)
+    rcm.reverse_complemented = n0
+    stats = [cutter.adapter_statistics[a], cutter.adapter_statistics[b]]
+    models = [_empty_model(stats[0]), _empty_model(stats[1])]
+    _seed(stats[0], models[0], 1, 1, 0, 1, None, r0)
+    _seed(stats[1], models[1], 1, 1, 0, 1, None, r1)
+    read = Rec("r", seq, "abcd")
+    info = ModificationInfo(read)
+    out = rcm(read, info)
+    applied = list(info.matches)
+    if len(applied) != 2 or not info.is_rc:
+        return False                                   # two matches with positive scores against none: the reverse complement is used
+    for m in applied:
+        if m.sequence[:0] != "" or not (m.adapter is a or m.adapter is b):
+            return False
+        if not _tally(models[0 if m.adapter is a else 1], m, True):
+            return False
+    if rcm.reverse_complemented != n0 + 1:
+        return False                                   # the read counts once
+    return _same(stats[0], models[0]) and _same(stats[1], models[1])
+
+
 def check_paired_revcomp(c0: int, c1: int, c2: int, c3: int, s0: int, s1: int, s2: int, s3: int, me: int, l0: int, e0: int, k0: int, w0: int, w1: int, r0: int) -> bool:
     """
     pre: 0 <= c0 <= 4 and 0 <= c1 <= 4 and 0 <= c2 <= 4 and 0 <= c3 <= 4 and 0 <= me <= 1
@@ -636,6 +681,7 @@ for _kind in ("back", "front", "anywhere"):
         if _kind != "back" and _pres in ((False, False),):
             continue
         CONDITIONS.append({"name": "revcomp/%s/present=%s" % (_kind, "".join("1" if x else "0" for x in _pres)), "fn": "check_revcomp", "param": {"kind": _kind, "present": _pres}, "timeout": 600})
+CONDITIONS.append({"name": "revcomp/two_rounds/two_adapters", "fn": "check_revcomp_rounds", "param": {}, "timeout": 900})
 for _pres in _it.product((False, True), repeat=4):
     CONDITIONS.append({"name": "paired_revcomp/present=%s" % "".join("1" if x else "0" for x in _pres), "fn": "check_paired_revcomp", "param": {"present": _pres}, "timeout": 900,
                        "thorough_only": sum(_pres) in (1, 3) and _pres not in ((True, True, True, False), (False, False, True, False), (True, False, False, False))})
@@ -657,7 +703,7 @@ def describe():
                       "modifiers.py:AdapterCutter.__call__", "modifiers.py:ReverseComplementer.__call__", "modifiers.py:PairedReverseComplementer.__call__", "modifiers.py:PairedAdapterCutter.__call__/_find_best_match_pair",
                       "modifiers.py:PairedEndModifierWrapper.__call__", "report.py:Statistics._collect_modifier", "report.py:ErrorRanges (floating point; harness.c20_error_ranges, engine symx, added separately)"],
         "bounds": {"read": "add_match: fixed text NACGT (adjacent base none/other/A/C/G/T); cutters: CAAC (reverse complement / R2: GTTG)", "match coordinates": "every 0 <= start <= stop <= len (add_match) resp. every cut position 0..4, symbolic",
-                   "errors": "0..1 symbolic", "scores": "0..3 symbolic where an orientation or pair is chosen (negative forward scores are C16's known defect)", "rounds": "--times 1 and 2",
+                   "errors": "0..1 symbolic", "scores": "0..3 symbolic where an orientation or pair is chosen (negative forward scores are C16's known defect)", "rounds": "--times 1 and 2 (under --revcomp: two rounds on the reverse complement by the same adapter or by two different adapters)",
                    "pre-state": "add_match: 3 cells (length, errors, count) per object - one fully symbolic, two at fixed places (thorough: a second one with symbolic length), all counts symbolic; modifiers: one cell at a fixed place with symbolic count (thorough: symbolic place); symbolic adjacent-base counts, reverse-complement counter, with_adapters counters",
                    "pinned in the quick tier": "pair conditions: cut positions of the R2 matches (1 and 2); two-round cutter: error counts of the second and third match",
                    "adapters": "5', 3', anywhere (5' iff the match starts at 0), linked (both parts / one part); two adapters per cutter; two pairs with --pair-adapters"},
